@@ -1,7 +1,9 @@
 use {
     crate::{
         command_line::arguments::Decomposition,
-        syntax_tree::fol::sigma_0::{Formula, FunctionConstant, Predicate, Sort, Theory},
+        syntax_tree::fol::sigma_0::{
+            Formula, FunctionConstant, Predicate, Sort, Theory, is_conflicting_symbol,
+        },
     },
     anyhow::{Context as _, Result},
     indexmap::IndexSet,
@@ -277,17 +279,18 @@ impl fmt::Display for Problem {
         }
 
         // Order the symbolic constants by the names they have in the input: a constant that was
-        // renamed to `<name>__s` (because `<name>` is also a propositional predicate) still
+        // renamed to `<name>__s` (because of a clash with a propositional predicate) still
         // denotes `<name>`, and `a__s` does not sort like `a` (e.g. `a0` < `a__s` but `a` < `a0`).
-        let propositional_predicates: IndexSet<String> = self
+        let propositional_predicates: IndexSet<Predicate> = self
             .predicates()
             .into_iter()
             .filter(|p| p.arity == 0)
-            .map(|p| p.symbol)
             .collect();
         let original_name = |s: &String| -> String {
             match s.strip_suffix("__s") {
-                Some(base) if propositional_predicates.contains(base) => base.to_string(),
+                Some(base) if is_conflicting_symbol(base, &propositional_predicates) => {
+                    base.to_string()
+                }
                 _ => s.clone(),
             }
         };
